@@ -167,6 +167,16 @@ def run(repo, tier):
     table_assembly(repo, res)
     run_loops(repo, res, MODS, rules=('LP1', 'LP1b'))
     run_forward(repo, res, MODS)
+    # the sums are taken over the aperture's weight map: its geometry plumbing (bounding box, recentred edges, half-extents,
+    # method table, unit handling of theta and of sky apertures, cache invalidation on parameter assignment) is part of C02 too
+    from . import C01 as G
+    from .C09 import run_L4
+    G.bbox_rules(repo, res)
+    G.aperture_rules(repo, res)
+    G.angle_unit_rules(repo, res)
+    G.extra_rules(repo, res)
+    G.sky_rules(repo, res)
+    run_L4(repo, res)
     run_axis(repo, res, MODS | {'photutils.aperture.bounding_box'})
     a1_collect(repo, res, modules=MODS)
     res.floor('SPEC', 25)
